@@ -25,6 +25,8 @@ SCRATCH = os.path.join(os.path.dirname(BUILD_ROOT.rstrip("/")), "scratch-run") i
 
 
 def answer(line, mode):
+    if mode == "early":
+        return b"<early>"
     return line if mode == "echo" else b"<" + line.upper() + b">"
 
 
@@ -62,6 +64,8 @@ def check_fold(data, out, mode):
     removing the brackets and lower-casing gives back the input (inputs are lower case, no brackets)."""
     if mode == "echo":
         return out == data
+    if mode == "early":      # used with a width larger than every line: one piece, one answer per line
+        return out == b"<early>\n" * data.count(b"\n")
     return out.replace(b"<", b"").replace(b">", b"").lower() == data
 
 
@@ -207,7 +211,7 @@ def main(argv):
         X = []
         for tool in ("cache", "fold", "b64"):
             for cin, cout in ((1, 1), (2, 1), (1, 2)):
-                for child in ("echo=1 k=1 ilen=4", "echo=1 k=1 ilen=5", "echo=0 k=1 ilen=2 alen=3", "echo=0 k=2 ilen=3 alen=1", "echo=0 k=3 ilen=2 alen=2", "echo=0 k=inf ilen=1 alen=2"):
+                for child in ("echo=1 k=1 ilen=4", "echo=1 k=1 ilen=5", "echo=0 k=1 early=1 ilen=3 alen=2", "echo=0 k=1 ilen=2 alen=3", "echo=0 k=2 ilen=3 alen=1", "echo=0 k=3 ilen=2 alen=2", "echo=0 k=inf ilen=1 alen=2"):
                     for recs in ("1", "1,1", "1,0,1,1", "1,1,0,1") if tool == "cache" else ("1", "2,1", "1,3", "2,2"):
                         X.append("X tool=%s cin=%d cout=%d %s recs=%s limit=%d" % (tool, cin, cout, child, recs, 150000 if c.tier == "quick" else 1500000))
         with ThreadPoolExecutor(max_workers=6) as ex:
@@ -260,6 +264,18 @@ def main(argv):
     staged = {"staged:5x1023": (first, rest)}
     cases.append(("cache", [], "staged:5x1023", first + rest, "echo"))
     cases.append(("cache", [], "staged:5x1023", first + rest, "eager"))
+    # a child that answers every line at its FIRST byte + a piece larger than the 8 KiB stream buffer (its body is
+    # written through, its newline stays buffered) + stdin stalling before end of input: the collector has emitted
+    # everything and waits in foldfilter's in-loop peek() when the child finishes (audit H1)
+    big = b"a" * 10000 + b"\n"
+    for nm, parts in (("staged:early1", (big, b"")), ("staged:early3", (b"x\n" + big, big + b"y\n"))):
+        staged[nm] = parts
+        cases.append(("foldfilter", ["-w", "100000"], nm, parts[0] + parts[1], "early"))
+        cases.append(("cache", [], nm, parts[0] + parts[1], "early"))
+        cases.append(("b64filter", [], nm, to_b64_docs(parts[0] + parts[1], c.rng, single=True), "early"))
+    for name, data in inputs[:6]:
+        cases.append(("foldfilter", ["-w", "100000"], name, data, "early"))
+        cases.append(("cache", [], name, data, "early"))
     # stdin as a regular file (mmap path of the reader) with a line longer than the 1 MiB window that does not
     # start at offset 0 (names starting with "file:")
     bigline = b"short first line\n" + b"z" * 1200000 + b"\nlast\n"
@@ -271,8 +287,11 @@ def main(argv):
 
     def do(case):
         tool, targs, name, data, mode = case
+        st = staged.get(name)
+        if st is not None and (tool == "b64filter" or st[0] + st[1] != data):
+            st = (data, b"")          # converted input: everything, then a stall, then end of input
         return run_case(repo_bin(tool), targs + [CHILD, mode], data, timeout,
-                        stages=staged.get(name), from_file=name.startswith("file:"))
+                        stages=st, from_file=name.startswith("file:"))
 
     with ThreadPoolExecutor(max_workers=6) as ex:
         results = list(ex.map(do, cases))
@@ -299,7 +318,7 @@ def main(argv):
         if not good:
             c.violation("output: %s with child '%s' produced incomplete or misordered output on input '%s' (%d bytes out)" % (tool, mode, name, len(out)), desc)
         if "peek-branch" in trace:
-            c.broken.append("foldfilter took the queue.Empty() branch on input '%s' child %s (assumed unreachable in the model)" % (name, mode))
+            c.cov["distribution"]["foldfilter in-loop peek taken"] = c.cov["distribution"].get("foldfilter in-loop peek taken", 0) + 1
         # cache: the periodic flush happens exactly every cache_flush_rate sends (rate regenerated from the source)
         if tool == "cache":
             sends = 0
@@ -343,7 +362,7 @@ def main(argv):
                     rule="real cache/foldfilter/b64filter runs with scripted children (eager, blocks of 7 and 5000 lines, read-all-first, byte-copying, stdio-buffered) on inputs from empty to lines of 70k/200k bytes (longer than each pipe and than both pipes together), 5000-9000 lines (beyond the 4096-line flush interval and the stream buffer), duplicate-heavy input; each run: no hang, status 0, complete ordered output, trace is a path of the extracted transition system; plus exhaustive exploration of the extracted transition system for small parameters",
                     assumptions=["the wrapper's own stdout never blocks; stdin delivers all input and then end-of-file",
                                  "the child answers exactly one line per line and reads its stdin to the end; kernel pipes are FIFO byte channels",
-                                 "foldfilter's queue.Empty()/peek branch is unreachable (the newline of a record's last line is only flushed by a later write); every trace is checked for it"])
+                                 "the child holds no copy of the write end of its own stdin and does not close its stdout before end of input; kernel pipes deliver bytes in order"])
 
 
 if __name__ == "__main__":
